@@ -49,10 +49,12 @@ def uniq_events(paths, *kinds):
     seen, out = set(), []
     for p in paths:
         for e in p.events:
-            if e.kind in kinds and id(e.node) not in seen:
-                seen.add(id(e.node))
+            # a statement that S wrote out more than once (the body of a loop over a literal tuple) gives one event per copy: the loop ids differ
+            k_ = (id(e.node), e.a.get("lid") if e.kind in ("LOOP", "ITER", "LOOPEND") else None)
+            if e.kind in kinds and k_ not in seen:
+                seen.add(k_)
                 out.append(e)
-    out.sort(key=lambda e: (getattr(e.node, "lineno", 0), getattr(e.node, "col_offset", 0)))
+    out.sort(key=lambda e: (getattr(e.node, "lineno", 0), getattr(e.node, "col_offset", 0), e.a.get("lid") or 0 if e.kind in ("LOOP", "ITER", "LOOPEND") else 0))
     return out
 
 
